@@ -947,3 +947,7 @@ fn should_execute_firm_block(
         CommitLevel::FirmOnly => true,
     }
 }
+
+#[cfg(all(test, feature = "verif-executor"))]
+#[path = "/verif/harness/conductor/executor.rs"]
+mod verif;
